@@ -331,6 +331,10 @@ def shrink(prop, fail, workdir, budget=80, seconds=90):
     return out
 
 
+EXPECTED_ATOMS_NOTE = ["isMeNewLeader = SoftState != nil && RaftState == StateLeader",
+                       "waitApply = (!isMeNewLeader && a committed entry is a conf change) || the Ready carries a snapshot"]
+
+
 class _Deadline(Exception):
     pass
 
@@ -545,6 +549,9 @@ def run(ctx, prop):
             signal.alarm(0)
             signal.signal(signal.SIGALRM, old_handler)
 
+    if order and "ATOMS CHANGED" in order:
+        mism.append(("driver-atoms:isMeNewLeader/waitApply", "node/raft.go processReady computes them as: " + order.split("ATOMS CHANGED:")[1].strip()[:600],
+                     "the driver (raftdrv readyStage) implements: " + " ;; ".join(EXPECTED_ATOMS_NOTE)))
     if fails:
         sim_fails = [f for f in fails if f["case"].get("scenario")]
         if sim_fails:
